@@ -181,7 +181,7 @@ def slow_source_jobs(rng, tier, mk_terms, add):
     inside the source the others reserve their chunks and queue at the turnstile, and the source
     reports 'nothing more' while reservations are still pending - interleavings the deterministic
     scheduler (atomic pulls) cannot produce."""
-    for i in range(24 if tier == "quick" else 240):
+    for i in range(48 if tier == "quick" else 400):
         src = rng.choice(("iter", "iter", "iterx", "deque", "hashset"))
         sh = rng.choice(["", "m", "f", "o", "l", "mf"][: (6 if src in ("iter", "iterx") else 5)])
         if len(sh) > SRC_MAXLEN[src]:
